@@ -68,7 +68,7 @@ func init() {
 		Assumptions: []string{"jobs of part (a) replace sqrtInverse/sqrtTruncate by the stubs vStub_sqrtInverse/vStub_sqrtTruncate (same frame: z overwritten through the real Mul); part (b) runs the real code", "the oracle of part (b) is square-and-compare on integers (r^2, next^2, prev^2 and the midpoints against x after scaling to a common exponent): no root is computed by the checker", archNote},
 		LevelText:   "Bounded symbolic model checking. (a) For all operand values: special values, ErrNaN, attribute preservation (precision AND rounding mode), operand immutability, alias independence and the exponent bookkeeping of Sqrt. (b) Correct rounding of the root by executing the real Sqrt on concrete hard-case operands (perfect squares, their neighbours, exact midpoints, odd/even exponents) with the rounding mode symbolic; the result must be the exact root, or the floor/ceiling neighbour the mode selects, decided by integer square comparisons.",
 		LevelNote:   "Part (b) quantifies over modes, not operands: it is a family of concrete operands pushed through the symbolic executor, which is as far as solver-based checking reaches here. " + trusted,
-		Timeout:     map[string]time.Duration{"quick": 150 * time.Second, "thorough": 300 * time.Second},
+		Timeout:     map[string]time.Duration{"quick": 300 * time.Second, "thorough": 300 * time.Second},
 	})
 	Register(&PropDef{
 		ID: "C06", Level: "model_checking", Contracts: "decDigits64,magic.div,div10W_g", DesignRef: "DESIGN.md 5 (C06), 2.4",
@@ -135,6 +135,6 @@ func init() {
 		Assumptions: []string{"operands are normalised decs with words below 10^19", "kernel contracts decDigits64, magic.div, div10W_g proved by C07's check", archNote},
 		LevelText:   "Bounded symbolic model checking at the natural-number layer: value(z) == value(x)*value(y) (expanded into word products, the same monomials the kernels produce), squares likewise, u == q*v + r with 0 <= r < v for one-word divisors; every output word below the base and normalised; no panic. These identities are the contracts that C01/C02 use for multi-word Mul/Quo.",
 		LevelNote:   "Partial: multi-word divisors only for concrete extremal patterns. " + trusted,
-		Timeout:     map[string]time.Duration{"quick": 120 * time.Second, "thorough": 600 * time.Second},
+		Timeout:     map[string]time.Duration{"quick": 300 * time.Second, "thorough": 600 * time.Second},
 	})
 }
